@@ -289,3 +289,41 @@ func Verif_C05_K7_FlattenCollision() {
 	}
 	v.Assert(n == 2, "both-matches-placed-into-the-directory")
 }
+
+// Verif_C07_RelativeSources: a tree referenced as the working directory itself
+// (".") is planned exactly like the same directory referenced by its absolute
+// path, dot-files at its top level included.
+func Verif_C07_RelativeSources() {
+	mt := time.Unix(1600000000, 0).UTC()
+	models.AddDir("/work", 0o755, mt)
+	root := models.AddDir("/work/t", 0o755, mt)
+	models.AddFile("/work/t/.env", []byte("E"), 0o644, mt)
+	models.AddDir("/work/t/.config", 0o755, mt)
+	models.AddFile("/work/t/.config/s.ini", []byte("S"), 0o644, mt)
+	models.AddFile("/work/t/app", []byte("A"), 0o755, mt)
+	models.Chdir("/work/t")
+	rel := []string{".", "./", "../t"}[v.NondetChoice("relative.spelling", 3)]
+	a, errA := PrepareForPackager(Contents{{Source: root, Destination: "/opt/demo", Type: TypeTree}}, 0o022, "deb", false, mt)
+	b, errB := PrepareForPackager(Contents{{Source: rel, Destination: "/opt/demo", Type: TypeTree}}, 0o022, "deb", false, mt)
+	v.Reach("C07.relative.ran")
+	v.Assert(errA == nil && errB == nil, "tree-of-the-working-directory-is-planned")
+	if errA != nil || errB != nil {
+		return
+	}
+	same := len(a) == len(b)
+	if same {
+		for i := range a {
+			if a[i].Destination != b[i].Destination || a[i].Type != b[i].Type {
+				same = false
+			}
+		}
+	}
+	v.Assert(same, "relative-and-absolute-source-give-the-same-plan")
+	found := false
+	for _, c := range b {
+		if c.Destination == "/opt/demo/.env" {
+			found = true
+		}
+	}
+	v.Assert(found, "top-level-dot-file-keeps-its-name")
+}
